@@ -54,6 +54,7 @@ type Contract struct {
 	Inline   bool
 	Trusted  bool
 	NilRecv  bool
+	Nilable  map[string]bool
 	MayPanic bool
 	File     string
 	IsIface  bool
@@ -70,11 +71,19 @@ type Pred struct {
 
 type GhostFunc struct {
 	Name   string
-	Params []string // sorts
+	Params []string // sorts; "bytes" expands to (Array Int Int) Int Int
 	Ret    string
+	Field  bool // ghost field: a heap-like Int->Ret map indexed by an object reference
 }
 
-var clauseKeywords = map[string]bool{"requires": true, "ensures": true, "modifies": true, "loop": true, "property": true,
+func (c *Contract) nilable(name string, isRecv bool) bool {
+	if isRecv && c.NilRecv {
+		return true
+	}
+	return c.Nilable[name]
+}
+
+var clauseKeywords = map[string]bool{"nilable": true, "requires": true, "ensures": true, "modifies": true, "loop": true, "property": true,
 	"inline": true, "trusted": true, "nilrecv": true, "maypanic": true, "label": true, "replay": true, "topensures": true}
 
 func (e *Engine) loadContracts(dir string, pkg *types.Package) error {
@@ -127,6 +136,15 @@ func (e *Engine) loadContracts(dir string, pkg *types.Package) error {
 			e.preds[pkg.Path()+"."+p.Name] = p
 			pendingPred = p
 			cur, lastClause = nil, nil
+			continue
+		case kw == "ghostfield":
+			// ghostfield NAME [sort]: per-object ghost state, read as NAME(obj)
+			g := &GhostFunc{Name: fields[1], Field: true, Ret: "Int"}
+			if len(fields) > 2 {
+				g.Ret = ghostSort(&ast.Ident{Name: fields[2]})
+			}
+			e.ghosts[g.Name] = g
+			pendingPred, cur, lastClause = nil, nil, nil
 			continue
 		case kw == "ghost":
 			// ghost func name(sorts) sort
@@ -258,6 +276,13 @@ func (e *Engine) loadContracts(dir string, pkg *types.Package) error {
 			cur.Trusted = true
 		case "nilrecv":
 			cur.NilRecv = true
+		case "nilable":
+			if cur.Nilable == nil {
+				cur.Nilable = map[string]bool{}
+			}
+			for _, f := range fields[1:] {
+				cur.Nilable[strings.Trim(f, ",")] = true
+			}
 		case "maypanic":
 			cur.MayPanic = true
 		case "label":
@@ -305,6 +330,8 @@ func (e *Engine) finishContracts() error {
 
 func ghostSort(e ast.Expr) string {
 	switch types.ExprString(e) {
+	case "bytes":
+		return "bytes"
 	case "bool":
 		return "Bool"
 	case "string":
